@@ -58,6 +58,33 @@ CHECKS["C18"] = {
     "level_text": "every placement of short/long segments up to N=10 (2 letters) / N=6 (3 letters) at 8 ratios up to 100 is executed; residuals of all defining equations computed in extended precision; the septic high-order-continuity loss (F1) is a recorded known finding, everything outside its region is reported",
 }
 
+def grad_jobs(prop, tier):
+    q = (1, 2, 3, 4); t = (1, 2, 3, 4, 5, 10)
+    return [job("grad_checks.cpp", "%s_d%d" % (prop, d), ["-DVDIM=%d" % d, "-DVPROP=%d" % int(prop[1:])], weight=d) for d in dims(tier, q, t)]
+
+CHECKS["C05"] = {
+    "engine": "E1 lattice explorer",
+    "jobs": lambda tier: grad_jobs("C05", tier),
+    "rule": "unit = (order, N, duration word, scale); every unit calls propagateGrad with EVERY unit upstream vector (each coefficient entry of each coordinate, each duration) for the full data basis + generic data and compares each output with the exact Jacobian of the reference construction map (jets through the dense long-double solve); plus, per unit, all call sequences of length <= 3 over 4 upstream vectors vs a fresh object (bitwise), value vs reference overload (bitwise), linearity; non-trivial = N >= 2",
+    "bounds": {"quick": "3 orders x DIM 1..4 x (N 1..4 all 3^N words, N 5 all 2^N words) x full data basis x all unit upstream vectors",
+               "thorough": "3 orders x DIM {1,2,3,4,5,10} x (N 1..6 all 3^N words; N 7..9 all 2^N words) x 3 scales x full data basis x all unit upstream vectors"},
+    "thresholds": {"normalised Jacobian error (cubic/quintic/septic)": [1e-8, 1e-7, 1e-6], "history/overload": "bitwise", "linearity": 1e-9},
+    "assumptions": ASSUME_COMMON,
+    "technique": TECH_E1 + "; by linearity the unit upstream vectors are ALL upstream gradients; oracle = forward-mode jets through an independent dense solve",
+    "level_text": "the full transpose-Jacobian is assembled from the library on every lattice case and compared entry by entry with an independent exact Jacobian; covers N=1, N=2, both septic DIM branches (DIM<=3, DIM>3) and the column-major 1-D layout",
+}
+CHECKS["C06"] = {
+    "engine": "E1 lattice explorer",
+    "jobs": lambda tier: grad_jobs("C06", tier),
+    "rule": "unit = (order, N, duration word, scale); every unit compares getEnergyGrad (and the individual getters, bitwise among themselves), the partial gradients (vs exact formulas on the published coefficients) and propagateGrad(partials) with d(reference energy)/d(input) obtained from the reference model only, for the data basis, basis pairs (energy is quadratic) and generic data; non-trivial = N >= 2",
+    "bounds": {"quick": "3 orders x DIM 1..4 x (N 1..4 all 3^N words, N 5 all 2^N words) x basis + neighbouring basis pairs + generic",
+               "thorough": "3 orders x DIM {1,2,3,4,5,10} x (N 1..7 all 3^N words; N 8,9 all 2^N words) x 3 scales x basis + all basis pairs + generic"},
+    "thresholds": {"normalised gradient error (cubic/quintic/septic)": [1e-8, 1e-7, 1e-6], "partials vs closed form": 1e-11},
+    "assumptions": ASSUME_COMMON,
+    "technique": TECH_E1 + "; oracle = jets of the reference energy (independent of the library's coefficients) + exact closed forms on published coefficients",
+    "level_text": "total derivatives of the reference energy w.r.t. every duration, waypoint and boundary component are compared with the library on every lattice case, with non-zero boundary derivatives included through the basis",
+}
+
 NOT_APPLICABLE = {}
 
 ENGINES = [
